@@ -272,7 +272,7 @@ pub fn param(r: &mut Rng, edge: usize, p: &Profile) -> String {
     }
 }
 
-const TEXT_SET: [char; 27] = ['a', 'b', 'c', 'x', 'y', 'z', ' ', ' ', '~', 'q', 'l', 'k', 'j', 'm', '\u{7f}', 'é', 'ß', '日', '本', '`', 'A', 'Z', '0', '#', '\u{1f600}', '\u{10348}', '\u{ffff}'];
+const TEXT_SET: [char; 28] = ['\u{a0}', 'a', 'b', 'c', 'x', 'y', 'z', ' ', ' ', '~', 'q', 'l', 'k', 'j', 'm', '\u{7f}', 'é', 'ß', '日', '本', '`', 'A', 'Z', '0', '#', '\u{1f600}', '\u{10348}', '\u{ffff}'];
 
 pub fn text_char(r: &mut Rng, p: &Profile) -> char {
     if p.wild_text && r.chance(1, 6) {
@@ -324,7 +324,14 @@ fn sgr_params(r: &mut Rng) -> String {
             11 => format!("38;2;{};{};{}", colour_index(r), colour_index(r), colour_index(r)),
             12 => format!("48:2:{}:{}:{}", colour_index(r), colour_index(r), colour_index(r)),
             13 => format!("38:2::{}:{}:{}", colour_index(r), colour_index(r), colour_index(r)),
-            14 => format!("{}", r.pick(&[6, 8, 10, 11, 20, 26, 28, 50, 51, 59, 60, 89, 98, 99, 108, 200])),
+            14 => {
+                if r.chance(1, 2) {
+                    // truncated / odd colour forms
+                    (*r.pick(&["38", "48", "38;5", "48;5", "38;2", "48;2;1", "38;2;1;2", "48;2;10;20", "38:5", "48:2:1:2", "38;7", "48;3;1"])).to_string()
+                } else {
+                    format!("{}", r.pick(&[6, 8, 10, 11, 20, 26, 28, 50, 51, 59, 60, 89, 98, 99, 108, 200]))
+                }
+            }
             _ => format!("{}", r.pick(&[1, 2, 3, 4, 5, 7, 9])),
         });
     }
